@@ -18,6 +18,16 @@ def tagged(n, t0=0.0, dt=0.5, base=0.0):
     """n poses with unique position / orientation / stamp"""
     Rs = [geom.rodrigues((0, 0, 1), 0.01 * (k + 1) + base) @ geom.rodrigues(
         (1, 0, 0), 0.02 * (k + 1)) for k in range(n)]
+    # every fourth pose holds an exact half turn (quaternion w == 0), every
+    # fourth an exact quarter turn (poses are identified by their positions)
+    for k in range(n):
+        if k % 4 == 1:
+            d = [-1.0, -1.0, -1.0]
+            d[(k // 4) % 3] = 1.0
+            Rs[k] = np.diag(d)
+        elif k % 4 == 3:
+            Rs[k] = np.array([[0.0, -1.0, 0.0], [1.0, 0.0, 0.0],
+                              [0.0, 0.0, 1.0]])
     ps = [np.array([base + k, 10.0 * k + 0.5, -1.0 * k * k]) for k in range(n)]
     ts = [t0 + dt * k for k in range(n)]
     return Rs, ps, ts
